@@ -14,6 +14,10 @@ CHECKS = {
  "C04": ("proof", "Theorems (coq/Props/C04.v): the specification (and therefore every validated encoder) is independent of the value stored in a length-of member; the reference encoder patches the size of the target's encoding at the placeholder (part of C01's proof: ESpan/EPatch against the specification's patch), decoders return the wire value (C02). The run validates the placeholder/span/patch steps of the real output in all five languages on the length cells (every width x spelling x target kind x byte order).", "6 C04", "machine-checked proof (Coq) + validation of the emitted back-patch steps"),
  "C05": ("proof", "Theorems (coq/Props/C05.v): a match payload is laid out as the message of its own packet; the reference decoder dispatches through exactly the DSL's table and reports unknown keys; dispatch semantics (known key -> the table's packet, unknown key -> reported error) and irrelevance of registration order for distinct keys. The run validates the dispatch tables extracted from the real output (registries, enums, factories, match arms) against the DSL table for integer keys of each width, string keys, key lists and several keys per packet.", "6 C05", "machine-checked proof (Coq) + validation of emitted dispatch tables"),
  "C06": ("proof", "Theorems (coq/Props/C06.v): the specification's checksum clause (registered: algorithm over the whole buffer so far; unregistered: the caller's value; declared width, configured byte order) and that validated encoders implement the specification. The run validates the checksum steps of the real output for every integer width, both spellings and both byte orders.", "6 C06", "machine-checked proof (Coq) + validation of emitted checksum steps"),
+ "C13": ("proof", "Theorems (coq/Props/C13.v), with Go map iteration as an explicit oracle (a range over a map is a fold over ANY permutation of its entries): a loop that only stores under pairwise distinct keys yields the same map in every order; a loop that only collects keys that are then sorted yields the same list in every order (for any total order); and every map range of the CURRENT source is of one of these shapes - a table regenerated from /repo by a go/types scan on every run (translator T1), so a new order-dependent iteration breaks the obligation. Dynamically every corpus program (several packets, several match fields per packet, shared line numbers, cross references) is compiled repeatedly by all six generators and compared byte for byte.", "6 C13", "machine-checked proof (Coq) over a site table regenerated from source + repeated real compilations"),
+ "C14": ("proof", "Theorems (coq/Props/C14.v): if generating never alters the model then, whichever generators ran before and in whatever order, a generator returns exactly what it returns alone (induction over the sequence), and the model after any sequence is the parsed model; the premise holds on the CURRENT source: the table of statements in generator/cmd sources that write model memory (go/types scan with local alias tracking: assignments through model pointers, index assignments, pointer-receiver model methods, in-place sort/copy/delete of model slices and maps), regenerated on every run, is empty. Dynamically: every generator alone versus inside sequences over one parsed model (CLI order, reverse, random orders and subsets), files compared and the model dumped before/after each step with pointer-identity classes.", "6 C14", "machine-checked proof (Coq) over a mutation-site table regenerated from source + reordered real generator runs"),
+ "C15": ("proof", "PARTIAL. Model: coq/Lua/LuaIR.v (IR of what the emitted Lua does with offsets and its semantics = the Wireshark Lua API contract incl. local-function scoping), coq/Gen/Lua.v (generator model), coq/Lua/Ranges.v (true ranges, derived from the wire specification). Theorem (coq/Props/C15.v): for root packets of non-repeated scalars and fixed strings the dissector attributes exactly the true ranges and ends at the end of the message, for every message. The larger fragment lua_frag (strings, lists, empty match payloads) is checked by evaluation on every run; outside it the property is refuted by recorded findings. Tie: emitted Lua extracted to the IR and compared with gen_lua on every run (extractor self-tested by ~10^4 text mutations); regenerated scalar size table compared with the model's.", "6 C15", "machine-checked proof (Coq) on the fixed-width fragment + differential correspondence and evaluation of the Lua IR semantics"),
+ "C16": ("proof", "Theorems (coq/Props/C16.v), for ALL library functions F (formatter), P (ParseFile) and G (generators): format -d prints exactly F's text plus a newline and nothing else, format -f leaves exactly that text in the file and touches no other path, on error both exit 1 with the file system unchanged; the C export returns the text (truncated at NUL as char* implies) or 'Error:'+message; compile with or without the word writes exactly {dir_L/name -> data} of the requested generators, in generator order, nothing else, and nothing on syntax errors/diagnostics; map iteration order in the file writer is irrelevant. PARTIAL with respect to OS effects. Tie: the real binary and the real c-shared library (ctypes) on ~300 cases (entry points x flag spellings x all 64 output-flag subsets x valid/invalid/empty texts) compared with the model instantiated with the real library results.", "6 C16", "machine-checked proof (Coq) of the wrapper model for all library functions + differential correspondence with the real binary and .so")
 }
 
 
@@ -52,7 +56,12 @@ def main():
     json.dump(m, open(os.path.join(VERIF, "MANIFEST.json"), "w"), indent=1)
 
 
-NOTES = {}
+NOTES = {
+ "C13": "Trusted: Coq kernel; tools/sites (go/types scan, ~350 lines) that regenerates the site tables; the classification of a loop body as keyed-insert / collect-then-sort is syntactic; Go's sort.Strings is a total order (theorem is parametric in the order). The C++ copyright year (clock) is a parameter.",
+ "C14": "Trusted: Coq kernel; tools/sites (go/types scan with flow-insensitive alias tracking) that regenerates the mutation-site table; the hook's model dump (pointer-identity classes) used for the dynamic before/after comparison.",
+ "C15": "Trusted: Coq kernel; coq/Lua/LuaIR.v as the Wireshark Lua API contract (no Lua interpreter or tshark in the sandbox); harness/extract_lua.py. Only the fixed-width fragment is proved; the rest of lua_frag is evaluated, not proved.",
+ "C16": "Trusted: Coq kernel; coq/Cli/Cli.v as the model of cobra/pflag argument handling for the modelled flag forms; OS effects (permissions, partial writes, symlinks) and stderr are outside the model; harness/cli.py.",
+}
 NOT_YET = {}
 
 if __name__ == "__main__":
